@@ -192,4 +192,128 @@ example : ValidArg demo 0 :=
       simpa using ha
     rcases this with rfl | rfl <;> (simp [demo] at hc; simp [hc.1, C16.steps7])⟩
 
+/-! ## Round 6: no side condition on how often a note is listed; arguments that are neither Score nor Part -/
+
+/-- **what `transpose` does to EVERY object of ANY argument** (no hypothesis at all): the copy of the object at `a`
+    is `_transpose_note_inplace` applied to it as often as the loops list it (`iterT`: 0 times = an exact copy —
+    rests, measures, notes outside the argument's parts; once = the property; a part listed twice in one score is
+    one object after `deepcopy` and its notes are moved TWICE).  `unvisited_copied` and `every_note_transposed` are
+    the cases 0 and 1. -/
+theorem transposed_as_often_as_listed {h h' : Heap} {root r' : Nat} {iv : Interval}
+    (e : transpose h root iv = some (h', r')) (a : Nat) :
+    h'[a + h.length]? =
+      (h[a]?.bind (iterT iv ((visited h root).count a))).map (Cell.shift h.length) :=
+  transpose_count e a
+
+/-- a step name stays a step name under `_transpose_note_inplace` -/
+def StepNote (c : Cell) : Prop := ∃ s al o rs p, c = Cell.note s al o rs p ∧ s ∈ C16.steps7
+
+theorem stepNote_transposed {iv : Interval} (hiv : (iv.quality, iv.number) ∈ C16.classPairs) (c : Cell)
+    (g : StepNote c) : ∃ c', Cell.transposed iv c = some c' ∧ StepNote c' := by
+  obtain ⟨s, al, o, rs, p, rfl, hs⟩ := g
+  obtain ⟨s', al', o', sz, ht, hs', -⟩ := C16.note_moved s hs _ hiv al o iv.up
+  exact ⟨Cell.note s' al' o' rs p, by simp [Cell.transposed, ht], s', al', o', rs, p, rfl, hs'⟩
+
+/-- **`transpose` does not raise, however often a note is listed** (`ValidArg.once` is not needed for totality):
+    what the score holds are parts, step names are step names, the interval is one of the 39 classes -/
+theorem transpose_total_listed_anyhow {h : Heap} {root : Nat} {iv : Interval}
+    (parts : ∀ p ∈ partsOf h root, ∃ os, h[p]? = some (Cell.part os))
+    (steps : ∀ a ∈ visited h root, ∀ s al o rs p, h[a]? = some (Cell.note s al o rs p) → s ∈ C16.steps7)
+    (hiv : (iv.quality, iv.number) ∈ C16.classPairs) : (transpose h root iv).isSome := by
+  unfold transpose deepcopy
+  simp only [Option.isSome_map]
+  apply foldl_parts_good iv StepNote (stepNote_transposed hiv) ((visited h root).map (· + h.length))
+  · rw [partsOf_copy]
+    intro p hp
+    obtain ⟨q, hq, rfl⟩ := List.mem_map.mp hp
+    obtain ⟨os, hos⟩ := parts q hq
+    exact ⟨os.map (· + h.length), by rw [copy_hi, hos]; rfl⟩
+  · rw [partsOf_copy, targets_copy]
+    exact fun a ha => ha
+  · intro a ha
+    obtain ⟨b, hb, rfl⟩ := List.mem_map.mp ha
+    obtain ⟨s, al, o, rs, p, hc⟩ := visited_is_note hb
+    refine ⟨_, by rw [copy_hi, hc]; rfl, s, al, o, rs.map (· + h.length), p, rfl, steps b hb s al o rs p hc⟩
+
+/-- **an argument that is neither a Score nor a Part** (the last branch of the dispatch: a Note, a list, …) comes
+    back as an untransposed deep copy; with `argument_untouched` the argument is left alone here too -/
+theorem other_argument_copied {h : Heap} {root : Nat} {iv : Interval}
+    (hs : ∀ ps, h[root]? ≠ some (Cell.score ps)) (hp : ∀ os, h[root]? ≠ some (Cell.part os)) :
+    transpose h root iv = some (deepcopy h root) := by
+  have h0 : partsOf h root = [] := by
+    unfold partsOf listedParts
+    cases hc : h[root]? with
+    | none => rfl
+    | some c =>
+      cases c with
+      | score ps => exact absurd hc (hs ps)
+      | part os => exact absurd hc (hp os)
+      | note s a o rs p => rfl
+      | other rs p => rfl
+  unfold transpose
+  simp only [deepcopy, partsOf_copy, h0, List.map_nil, List.foldlM_nil, Option.pure_def, Option.map_some]
+
+/-- an interval that moves no note (it has no size: `Interval.semitones` raises) makes the whole call raise — unless
+    the argument's parts hold no pitched note at all, in which case the result is the plain deep copy -/
+theorem sizeless_interval {h h' : Heap} {root r' : Nat} {iv : Interval}
+    (hN : ∀ c, Cell.transposed iv c = none) (e : transpose h root iv = some (h', r')) :
+    visited h root = [] ∧ (h', r') = deepcopy h root := by
+  unfold transpose at e
+  simp only [Option.map_eq_some_iff] at e
+  obtain ⟨h2, e2, he⟩ := e
+  obtain ⟨ht, rfl⟩ := foldl_parts_none iv hN _ _ _ e2
+  simp only [deepcopy] at ht
+  rw [partsOf_copy, targets_copy, List.map_eq_nil_iff] at ht
+  exact ⟨ht, he.symm⟩
+
+/-- **every listed part is reached, and reached once** (fix F-C16-6): the outer loop runs over exactly the parts
+    the argument lists, each object one time however often the score lists it -/
+theorem parts_reached_once (h : Heap) (root : Nat) :
+    (partsOf h root).Nodup ∧ ∀ p, p ∈ partsOf h root ↔ p ∈ listedParts h root := by
+  refine ⟨nodup_uniqueParts _ _, fun p => ?_⟩
+  unfold partsOf
+  rw [mem_uniqueParts]
+  simp
+
+/-- non-vacuity, the witness of F-C16-6: one part listed twice in a score — its note moves by ONE major second
+    (the unrepaired code moved it twice, to E) -/
+example : transpose [.score [1, 1], .part [2], .note "C" none 4 [] [0, 4]] 0 ⟨"M", 2, true⟩ =
+    some ([.score [1, 1], .part [2], .note "C" none 4 [] [0, 4],
+           .score [4, 4], .part [5], .note "D" (some 0) 4 [] [0, 4]], 3) := by decide +kernel
+
+/-- a note that two different parts hold (possible only by bypassing `Part.add`) is still moved once per part:
+    `transposed_as_often_as_listed` with count 2; this is what `ValidArg.once` excludes -/
+example : transpose [.score [1, 2], .part [3], .part [3], .note "C" none 4 [] [0, 4]] 0 ⟨"M", 2, true⟩ =
+    some ([.score [1, 2], .part [3], .part [3], .note "C" none 4 [] [0, 4],
+           .score [5, 6], .part [7], .part [7], .note "E" (some 0) 4 [] [0, 4]], 4) := by decide +kernel
+
+example : iterT ⟨"M", 2, true⟩ 2 (.note "C" none 4 [] [0, 4]) = some (.note "E" (some 0) 4 [] [0, 4]) := by
+  decide +kernel
+
+/-- … and a Note as argument: copied, not moved -/
+example : transpose [.note "C" none 4 [1] [0, 4], .note "C" none 4 [0] [4, 8]] 0 ⟨"M", 2, true⟩ =
+    some ([.note "C" none 4 [1] [0, 4], .note "C" none 4 [0] [4, 8],
+           .note "C" none 4 [3] [0, 4], .note "C" none 4 [2] [4, 8]], 2) := by decide +kernel
+
+/-! ## Round 6: the argument is not modified — also when the call raises -/
+
+/-- `transposeRun` (the loops run to the first note that raises, heap kept) is `transpose` with the heap forgotten
+    on a raise: the theorems about `transpose` speak about the run the driver answers with -/
+theorem run_is_transpose (h : Heap) (root : Nat) (iv : Interval) :
+    transpose h root iv = (transposeRun h root iv).2.map fun r => ((transposeRun h root iv).1, r) :=
+  transposeRun_agrees h root iv
+
+/-- **the argument itself is not modified — whatever happens**: the call returns, or raises at any note of any part
+    (an interval without a size, a step that is no step name, a part list holding something that is no part): every
+    cell the argument could reach is exactly what it was.  No hypothesis on heap, root or interval. -/
+theorem argument_untouched_even_if_raised (h : Heap) (root : Nat) (iv : Interval) :
+    ∀ a, a < h.length → (transposeRun h root iv).1[a]? = h[a]? :=
+  fun a ha => transposeRun_frame h root iv a ha
+
+/-- non-vacuity: the second note has a step that is no step name — the call raises after the first note was moved
+    in the copy; the argument (cells 0..2) is intact -/
+example : transposeRun [.part [1, 2], .note "C" none 4 [] [0, 4], .note "H" none 4 [] [4, 8]] 0 ⟨"M", 2, true⟩ =
+    ([.part [1, 2], .note "C" none 4 [] [0, 4], .note "H" none 4 [] [4, 8],
+      .part [4, 5], .note "D" (some 0) 4 [] [0, 4], .note "H" none 4 [] [4, 8]], none) := by decide +kernel
+
 end C16Heap
